@@ -148,9 +148,9 @@ macro_rules! rv_suite {
     }
   };
 }
-rv_suite!(spsc_rv, fibre::spsc::rendezvous, c05_q_rvspsc_recv_vs_try_send, c05_t_rvspsc_send_vs_try_recv, c01_q_rvspsc_recv_timeout_vs_try_send, c04_t_rvspsc_parked_vs_peer_drop, c03_q_rvspsc_try_send_ok_implies_paired);
-rv_suite!(mpsc_rv, fibre::mpsc::rendezvous, c05_q_rvmpsc_recv_vs_try_send, c05_t_rvmpsc_send_vs_try_recv, c01_q_rvmpsc_recv_timeout_vs_try_send, c04_t_rvmpsc_parked_vs_peer_drop, c03_q_rvmpsc_try_send_ok_implies_paired);
-rv_suite!(mpmc_rv, fibre::mpmc::rendezvous, c05_t_rvmpmc_recv_vs_try_send, c05_t_rvmpmc_send_vs_try_recv, c01_x_rvmpmc_recv_timeout_vs_try_send, c04_t_rvmpmc_parked_vs_peer_drop, c03_x_rvmpmc_try_send_ok_implies_paired);
+rv_suite!(spsc_rv, fibre::spsc::rendezvous, c05_q_rvspsc_recv_vs_try_send, c05_x_rvspsc_send_vs_try_recv, c01_q_rvspsc_recv_timeout_vs_try_send, c04_t_rvspsc_parked_vs_peer_drop, c03_q_rvspsc_try_send_ok_implies_paired);
+rv_suite!(mpsc_rv, fibre::mpsc::rendezvous, c05_q_rvmpsc_recv_vs_try_send, c05_x_rvmpsc_send_vs_try_recv, c01_q_rvmpsc_recv_timeout_vs_try_send, c04_t_rvmpsc_parked_vs_peer_drop, c03_q_rvmpsc_try_send_ok_implies_paired);
+rv_suite!(mpmc_rv, fibre::mpmc::rendezvous, c05_x_rvmpmc_recv_vs_try_send, c05_x_rvmpmc_send_vs_try_recv, c01_x_rvmpmc_recv_timeout_vs_try_send, c04_t_rvmpmc_parked_vs_peer_drop, c03_x_rvmpmc_try_send_ok_implies_paired);
 
 // ---------------------------------------------------------------- async fronts, sequential at poll granularity
 use std::future::Future;
